@@ -19,19 +19,21 @@ import (
 )
 
 type Engine struct {
-	P  *load.Program
-	A  *effects.Analysis
-	CT map[*ssa.Function]bool // constant-time set
+	P           *load.Program
+	A           *effects.Analysis
+	CT          map[*ssa.Function]bool // constant-time set
 	VarTimeOnly []*ssa.Function
 
-	val      map[ssa.Value]bool       // tainted registers
-	obj      map[effects.Root]bool    // tainted local objects
-	param    map[*ssa.Parameter]bool  // tainted scalar parameters (joined over call sites)
-	ret      map[*ssa.Function][]bool // tainted results
-	retObj   map[*ssa.Function][]bool // result k may point to a callee-local object holding secrets
-	changed  bool
-	Problems []string
-	NSinks   map[string]int
+	val       map[ssa.Value]bool              // tainted registers
+	obj       map[effects.Root]bool           // tainted local objects
+	param     map[*ssa.Parameter]bool         // tainted scalar parameters (joined over call sites)
+	private   map[*ssa.Function]*ssa.Function // function -> the decoder it is private to
+	NValidity int
+	ret       map[*ssa.Function][]bool // tainted results
+	retObj    map[*ssa.Function][]bool // result k may point to a callee-local object holding secrets
+	changed   bool
+	Problems  []string
+	NSinks    map[string]int
 }
 
 // allow-listed external callees (tainted arguments are acceptable)
@@ -372,17 +374,21 @@ func (e *Engine) call(fi *effects.FuncInfo, c *ssa.Call) {
 			}
 		}
 		// scalar parameters: join over call sites
-		for i, a := range cc.Args {
-			if i < len(h.Params) && !isPtrLike(a.Type()) && e.tainted(a) && !e.param[h.Params[i]] {
-				e.param[h.Params[i]] = true
+		acts, forms := load.Actuals(c), load.Formals(h)
+		for i, a := range acts {
+			if i >= len(forms) || isPtrLike(a.Type()) {
+				continue
+			}
+			if fp, ok := forms[i].(*ssa.Parameter); ok && e.tainted(a) && !e.param[fp] {
+				e.param[fp] = true
 				e.changed = true
 			}
 		}
 		// anything the callee may write becomes tainted in local objects (conservative)
 		hs := e.A.Info[h].Sum
 		for l := range hs.MayWrite {
-			if l.Root.Kind == effects.KParam && l.Root.Index < len(cc.Args) {
-				e.taintObj(fi, cc.Args[l.Root.Index])
+			if l.Root.Kind == effects.KParam && l.Root.Index < len(acts) {
+				e.taintObj(fi, acts[l.Root.Index])
 			}
 		}
 		return
@@ -425,7 +431,7 @@ func (e *Engine) exprKey(v ssa.Value, depth int) string {
 		if n, ok := st.(*types.Named); ok {
 			name = n.Obj().Name()
 		}
-		return name + "." + st.Underlying().(*types.Struct).Field(x.Field).Name()
+		return name + "." + load.FieldName(st, x.Field)
 	case *ssa.IndexAddr:
 		return e.exprKey(x.X, depth+1) + "[" + e.exprKey(x.Index, depth+1) + "]"
 	case *ssa.Index:
@@ -438,10 +444,20 @@ func (e *Engine) exprKey(v ssa.Value, depth int) string {
 			return b.Name() + "()"
 		}
 		if h := x.Common().StaticCallee(); h != nil {
+			if g, j := e.P.ResultOrigin(h, 0); g != h {
+				return load.BaseName(g) + "()#" + fmt.Sprint(j)
+			}
 			return load.BaseName(h) + "()"
 		}
 		return "call"
 	case *ssa.Extract:
+		if c, ok := x.Tuple.(*ssa.Call); ok {
+			if h := c.Common().StaticCallee(); h != nil {
+				if g, j := e.P.ResultOrigin(h, x.Index); g != h {
+					return load.BaseName(g) + "()#" + fmt.Sprint(j)
+				}
+			}
+		}
 		return e.exprKey(x.Tuple, depth+1) + "#" + fmt.Sprint(x.Index)
 	case *ssa.Convert:
 		return e.exprKey(x.X, depth+1)
@@ -461,6 +477,127 @@ func (e *Engine) exprKey(v ssa.Value, depth int) string {
 		return e.exprKey(x.X, depth+1) + "[:]"
 	}
 	return strings.TrimPrefix(fmt.Sprintf("%T", v), "*ssa.")
+}
+
+// Decoders are the exported functions whose accept/reject decision is public by the property.
+var Decoders = []string{"(*Point).SetBytes", "(*Point).SetExtendedCoordinates", "(*Scalar).SetCanonicalBytes"}
+
+// decoderOf: f itself if it is a decoder; the decoder D if f is an unexported
+// function every caller of which is D or another function private to D.
+func (e *Engine) decoderOf(f *ssa.Function) *ssa.Function {
+	if e.private == nil {
+		e.private = map[*ssa.Function]*ssa.Function{}
+		callers := map[*ssa.Function][]*ssa.Function{}
+		for _, g := range e.P.Funcs {
+			top := g
+			for top.Parent() != nil {
+				top = top.Parent()
+			}
+			for _, h := range e.P.Callees(g) {
+				callers[h] = append(callers[h], top)
+			}
+		}
+		for _, name := range Decoders {
+			d := e.P.ByName[name]
+			if d == nil {
+				continue
+			}
+			e.private[d] = d
+			cand := map[*ssa.Function]bool{}
+			for _, g := range e.P.Funcs {
+				if g.Parent() == nil && !e.P.IsAPIRoot(g) && len(callers[g]) > 0 {
+					cand[g] = true
+				}
+			}
+			for changed := true; changed; {
+				changed = false
+				for g := range cand {
+					for _, c := range callers[g] {
+						if c != d && !cand[c] {
+							delete(cand, g)
+							changed = true
+							break
+						}
+					}
+				}
+			}
+			// keep only those actually reachable from d
+			reach := e.P.Reachable([]*ssa.Function{d})
+			for g := range cand {
+				if reach[g] {
+					if _, taken := e.private[g]; !taken {
+						e.private[g] = d
+					}
+				}
+			}
+		}
+	}
+	top := f
+	for top.Parent() != nil {
+		top = top.Parent()
+	}
+	return e.private[top]
+}
+
+// validityDecision: the branch sits in a decoder (or a function private to one)
+// and one of its sides leaves the function at once — in the decoder itself with
+// a non-nil error. Returns the justification, or "".
+func (e *Engine) validityDecision(f *ssa.Function, br *ssa.If) string {
+	d := e.decoderOf(f)
+	if d == nil {
+		return ""
+	}
+	var exitSide func(b *ssa.BasicBlock, depth int) (*ssa.Return, bool)
+	exitSide = func(b *ssa.BasicBlock, depth int) (*ssa.Return, bool) {
+		for _, in := range b.Instrs {
+			switch x := in.(type) {
+			case *ssa.Phi, *ssa.DebugRef, *ssa.MakeInterface, *ssa.UnOp, *ssa.BinOp, *ssa.Alloc, *ssa.FieldAddr, *ssa.IndexAddr, *ssa.Index, *ssa.Field,
+				*ssa.Convert, *ssa.ChangeType, *ssa.Extract, *ssa.Slice:
+				// computing the value to return: no effect besides the return itself
+			case *ssa.Call:
+				if h := x.Common().StaticCallee(); h == nil || h.String() != "errors.New" {
+					return nil, false
+				}
+			case *ssa.Store:
+				// writing a result variable of this very function
+				if _, local := x.Addr.(*ssa.Alloc); !local {
+					return nil, false
+				}
+			case *ssa.Return:
+				return x, true
+			case *ssa.Jump:
+				if depth < 2 {
+					return exitSide(b.Succs[0], depth+1)
+				}
+				return nil, false
+			default:
+				return nil, false
+			}
+		}
+		return nil, false
+	}
+	for _, s := range br.Block().Succs {
+		r, ok := exitSide(s, 0)
+		if !ok {
+			continue
+		}
+		if f == d {
+			// the decoder itself: the side must reject (last result a non-nil error)
+			if len(r.Results) == 0 {
+				continue
+			}
+			last := r.Results[len(r.Results)-1]
+			if c, isC := last.(*ssa.Const); isC && c.Value == nil {
+				continue
+			}
+			if !types.Identical(last.Type(), types.Universe.Lookup("error").Type()) {
+				continue
+			}
+			return "one side returns the decoder's error at " + e.P.Rel(r.Pos())
+		}
+		return fmt.Sprintf("%s is called only inside %s and one side of the branch returns at once (%s)", load.ShortName(f), load.ShortName(d), e.P.Rel(r.Pos()))
+	}
+	return ""
 }
 
 // Sinks returns one obligation per sink construct in the constant-time set.
@@ -494,7 +631,22 @@ func (e *Engine) Sinks() []report.Obligation {
 			for _, in := range b.Instrs {
 				switch x := in.(type) {
 				case *ssa.If:
-					add("CT-BRANCH", f, in, e.exprKey(x.Cond, 0), e.tainted(x.Cond), "branch condition depends on secret data")
+					bad := e.tainted(x.Cond)
+					if bad {
+						if why := e.validityDecision(f, x); why != "" {
+							// exempt by the property: the accept/reject decision of a decoder is public
+							key := "CT-BRANCH/" + load.ShortName(f) + "/" + e.exprKey(x.Cond, 0)
+							keyCount[key]++
+							if n := keyCount[key]; n > 1 {
+								key = fmt.Sprintf("%s#%d", key, n)
+							}
+							e.NSinks["CT-BRANCH"]++
+							e.NValidity++
+							out = append(out, report.Obligation{Rule: "CT-BRANCH", Key: key, Config: cfg, Pos: e.posOf(in), OK: true, Detail: "secret-dependent, but a validity decision of a decoder (exempt by the property): " + why})
+							continue
+						}
+					}
+					add("CT-BRANCH", f, in, e.exprKey(x.Cond, 0), bad, "branch condition depends on secret data")
 				case *ssa.IndexAddr:
 					if _, isC := x.Index.(*ssa.Const); !isC {
 						add("CT-INDEX", f, in, e.exprKey(x, 0), e.tainted(x.Index), "memory is addressed by a secret-dependent index")
